@@ -239,7 +239,7 @@ def r_lookup_ast(ctx):
 def check(ctx):
     r_pairing(ctx)
     r_order_ast(ctx)
-    c01.schema_rules(ctx, only={'compile::compile_blk', 'compile::<impl ast::Expression>::compile', 'compile::<impl ast::Match>::compile', 'compile::<impl ast::Call>::compile'})
+    c01.schema_rules(ctx, only={'compile::compile_blk': None, 'compile::<impl ast::Expression>::compile': None, 'compile::<impl ast::Match>::compile': None, 'compile::<impl ast::Call>::compile': r'=Custom\b'})
     r_function_scope(ctx)
     r_lookup_ast(ctx)
     binding.r_lookup(ctx, 'R10.5')
